@@ -93,3 +93,296 @@ theorem step_Y_other (s : Script) (t : Nat) (c : Cfg) (h : ∀ r b acc, (c.th t)
   | _ => simp only <;> (try (repeat' (first | split | simp [setTh])))
 
 end Orx.IW
+
+namespace Orx.IW
+
+theorem setClk_same (h : HCfg) (t : Nat) (k : VC) : setClk h t k t = k := by simp [setClk]
+theorem setClk_other (h : HCfg) (t u : Nat) (k : VC) (hu : u ≠ t) : setClk h t k u = h.clk u := by simp [setClk, hu]
+
+/-- Establishing `HInv` after a step of `t`, from facts about `t`'s new state (the other threads did not move). -/
+theorem hinv_update {h : HCfg} (hv : HInv h) (t : Nat) (core' : Cfg) (k' : VC) (rel' last' : VC)
+    (hoth : ∀ u, u ≠ t → core'.th u = h.core.th u)
+    -- other workers keep seeing the latest use: it did not change, or only `t` works
+    (hlast : ∀ u, u ≠ t → (h.core.th u).pc.working = true → last' = h.last)
+    (hself : (core'.th t).pc.working = true → last'.le k')
+    (hout : (∀ u, (core'.th u).pc.inCS = false) → last'.le rel' ∨ DeadT core') :
+    HInv { core := core', clk := setClk h t k', relY := rel', last := last' } := by
+  constructor
+  · intro u hw
+    by_cases hu : u = t
+    · subst hu; simp only [setClk_same]; exact hself hw
+    · simp only [setClk_other h t u k' hu]
+      rw [hoth u hu] at hw
+      rw [hlast u hu hw]
+      exact hv.inside u hw
+  · exact hout
+
+theorem working_not_two {s : Script} {c : Cfg} (hi : Inv s c) (t u : Nat) (htu : u ≠ t)
+    (ht : (c.th t).pc.inCS = true) : (c.th u).pc.working = false := by
+  cases hw : (c.th u).pc.working with
+  | false => rfl
+  | true => exact absurd (working_inCS hw) (by
+      intro hcs; exact mutex hi t u (Ne.symm htu) ht hcs)
+
+/-- outside the critical section nobody works after a step of a thread that was not about to enter -/
+theorem step_not_working (s : Script) (t : Nat) (c : Cfg)
+    (h : match (c.th t).pc with | .idle | .skp | .resv _ | .pre _ _ | .chk _ _ | .dead _ _ => True | _ => False) :
+    ((step s t c).th t).pc.working = false := by
+  unfold step
+  generalize hx : c.th t = x at h
+  obtain ⟨pc, todo, outs⟩ := x
+  have hret : ∀ (x : Thread) r o, (ret x r o).pc.working = false := by
+    intro x r o; rcases ret_pc x r o with h1 | h1 <;> simp [h1, Pc.working]
+  cases pc <;> simp at h
+  · cases todo with
+    | nil => simp [hx, Pc.working]
+    | cons r rest => cases r <;> simp [setTh, Pc.working]
+  · simp [setTh, hret]
+  · simp [setTh, Pc.working]
+  · simp only; split
+    · simp only [setTh_th_same]; exact hret _ _ _
+    · simp [setTh, Pc.working]
+  · simp only; split
+    · simp only [setTh_th_same]; exact hret _ _ _
+    · simp [setTh, Pc.working]
+  · simp [hx, Pc.working]
+
+/-- a dead protocol stays dead while nobody is in the critical section -/
+theorem deadT_step {s : Script} {c : Cfg} (hi : Inv s c) (hd : DeadT c) (hall : ∀ u, (c.th u).pc.inCS = false) (t : Nat) :
+    DeadT (step s t c) := by
+  have hY : (step s t c).Y = c.Y := step_Y_other s t c (by
+    intro r b acc hp; have := hall t; simp [hp, Pc.inCS] at this)
+  refine ⟨by rw [hY]; exact Nat.lt_of_lt_of_le hd.1 (step_R_mono s t c), ?_⟩
+  intro u b' n' hb'
+  rw [hY]
+  by_cases hu : u = t
+  · subst hu
+    have hcs := hall u
+    unfold step at hb'
+    generalize hx : c.th u = x at hb' hcs
+    obtain ⟨pc, todo, outs⟩ := x
+    have hretk : ∀ (x : Thread) r o, (ret x r o).pc.ticket = none := by
+      intro x r o; rcases ret_pc x r o with h1 | h1 <;> simp [h1, Pc.ticket]
+    have hold : ∀ b n, pc.ticket = some (b, n) → c.Y < b := fun b n hb => hd.2 u b n (by simp [hx, hb])
+    cases pc <;> simp [Pc.inCS] at hcs
+    · cases todo with
+      | nil => simp [hx, Pc.ticket] at hb'
+      | cons r rest => cases r <;> simp [setTh, Pc.ticket] at hb'
+    · simp [setTh, hretk] at hb'
+    · simp [setTh, Pc.ticket] at hb'; obtain ⟨rfl, _⟩ := hb'; exact hd.1
+    · rename_i r b
+      simp only at hb'; split at hb'
+      · simp [setTh, hretk] at hb'
+      · simp [setTh, Pc.ticket] at hb'; obtain ⟨rfl, _⟩ := hb'; exact hold b r.len (by simp [Pc.ticket])
+    · rename_i r b
+      have hb0 := hold b r.len (by simp [Pc.ticket])
+      simp only at hb'
+      split at hb'
+      · omega
+      · split at hb'
+        · simp [setTh, hretk] at hb'
+        · simp [setTh, Pc.ticket] at hb'; obtain ⟨rfl, _⟩ := hb'; exact hb0
+    · rename_i r b
+      simp only at hb'; split at hb'
+      · simp [setTh, hretk] at hb'
+      · simp [setTh, Pc.ticket] at hb'; obtain ⟨rfl, _⟩ := hb'; exact hold b r.len (by simp [Pc.ticket])
+  · rw [step_th_other s t u c hu] at hb'; exact hd.2 u b' n' hb'
+
+/-- steps of a thread that is outside the critical section and not about to enter it -/
+theorem hinv_quiet {s : Script} {h : HCfg} (hi : Inv s h.core) (hv : HInv h) (t : Nat)
+    (hq : match (h.core.th t).pc with | .idle | .skp | .resv _ | .pre _ _ | .chk _ _ | .dead _ _ => True | _ => False) :
+    HInv { h with core := step s t h.core, clk := setClk h t ((h.clk t).tick t) } := by
+  have hoth := fun u (hu : u ≠ t) => step_th_other s t u h.core hu
+  refine hinv_update hv t _ _ _ _ hoth (fun _ _ _ => rfl) ?_ ?_
+  · intro hw; rw [step_not_working s t h.core hq] at hw; exact absurd hw (by simp)
+  · intro hall
+    by_cases hd : ∃ b n, (h.core.th t).pc = .dead b n
+    · obtain ⟨b, n, hd⟩ := hd
+      have : (step s t h.core).th t = h.core.th t := by
+        unfold step; simp [hd]
+      have := hall t
+      simp [‹(step s t h.core).th t = h.core.th t›, hd, Pc.inCS] at this
+    · have hall0 : ∀ u, (h.core.th u).pc.inCS = false := by
+        intro u
+        by_cases hu : u = t
+        · subst hu
+          generalize (h.core.th u).pc = pc at hq hd
+          cases pc <;> simp [Pc.inCS] at hq ⊢
+          exact absurd ⟨_, _, rfl⟩ hd
+        · rw [← hoth u hu]; exact hall u
+      rcases hv.outside hall0 with hle | hdead
+      · exact Or.inl hle
+      · exact Or.inr (deadT_step hi hdead hall0 t)
+
+/-- **(K)/(J) are preserved by every step**, provided the load of `yielded` acquires and its `fetch_add` releases. -/
+theorem hstep_inv (o : Ords) (hacq : o.yLoad.isAcq = true) (hrel : o.yFaa.isRel = true)
+    {s : Script} (hf : Fused s) {h : HCfg} (hi : Inv s h.core) (hW : h.core.R < W) (hv : HInv h) (t : Nat) :
+    HInv (hstep o s t h) := by
+  have hi' := step_inv hf hi hW t
+  have hoth := fun u (hu : u ≠ t) => step_th_other s t u h.core hu
+  unfold hstep
+  generalize hpc : (h.core.th t).pc = pc
+  -- the new state of `t`, by cases, read off `step`
+  cases pc with
+  | wait r b =>
+    simp only [hacq, ↓reduceIte]
+    have hme : (h.core.th t).pc.ticket = some (b, r.len) := by simp [hpc, Pc.ticket]
+    have htk := hi.tk t b r.len hme
+    refine hinv_update hv t _ _ _ _ hoth (fun _ _ _ => rfl) ?_ ?_
+    · -- if `t` now works, it entered: b = Y, nobody was inside, so (J) applies and the acquire load joins relY
+      intro hw
+      have hbY : b = h.core.Y := by
+        unfold step at hw; simp only [hpc] at hw
+        by_cases hb : b = h.core.Y
+        · exact hb
+        · simp only [hb, ↓reduceIte] at hw
+          split at hw <;> simp [setTh, ret_inCS, Pc.working] at hw
+          · rcases ret_pc (h.core.th t) r .fin with h1 | h1 <;> simp [h1, Pc.working] at hw
+      have hno := others_not_inCS hi t b r.len hme hbY
+      have hall : ∀ u, (h.core.th u).pc.inCS = false := by
+        intro u
+        by_cases hu : u = t
+        · subst hu; simp [hpc, Pc.inCS]
+        · exact hno u hu
+      rcases hv.outside hall with hle | hdead
+      · exact VC.le_trans hle (VC.le_join_right _ _)
+      · have := hdead.2 t b r.len hme; omega
+    · intro hall
+      -- nobody inside afterwards: nobody was inside before either (t was not), and Y, R-order facts persist
+      have hall0 : ∀ u, (h.core.th u).pc.inCS = false := by
+        intro u
+        by_cases hu : u = t
+        · subst hu; simp [hpc, Pc.inCS]
+        · rw [← hoth u hu]; exact hall u
+      have hY : (step s t h.core).Y = h.core.Y := step_Y_other s t h.core (by simp [hpc])
+      rcases hv.outside hall0 with hle | hdead
+      · exact Or.inl hle
+      · refine Or.inr ⟨by rw [hY]; exact Nat.lt_of_lt_of_le hdead.1 (step_R_mono s t h.core), ?_⟩
+        intro u b' n' hb'
+        rw [hY]
+        by_cases hu : u = t
+        · subst hu
+          -- t's ticket after the step is still (b, r.len) or none
+          have : (step s u h.core).th u = (step s u h.core).th u := rfl
+          unfold step at hb'; simp only [hpc] at hb'
+          split at hb'
+          · split at hb' <;> simp [setTh, Pc.ticket] at hb' <;> (obtain ⟨rfl, _⟩ := hb'; exact hdead.2 u b r.len hme)
+          · split at hb'
+            · simp [setTh] at hb'
+              rcases ret_pc (h.core.th u) r .fin with h1 | h1 <;> simp [h1, Pc.ticket] at hb'
+            · simp [setTh, Pc.ticket] at hb'; obtain ⟨rfl, _⟩ := hb'; exact hdead.2 u b r.len hme
+        · rw [hoth u hu] at hb'; exact hdead.2 u b' n' hb'
+  | idle => exact hinv_quiet hi hv t (by simp [hpc])
+  | skp => exact hinv_quiet hi hv t (by simp [hpc])
+  | resv r => exact hinv_quiet hi hv t (by simp [hpc])
+  | pre r b => exact hinv_quiet hi hv t (by simp [hpc])
+  | chk r b => exact hinv_quiet hi hv t (by simp [hpc])
+  | dead b n => exact hinv_quiet hi hv t (by simp [hpc])
+  | cs r b acc =>
+    simp only
+    have hcs : (h.core.th t).pc.inCS = true := by simp [hpc, Pc.inCS]
+    have hnew : ((step s t h.core).th t).pc = .ins r b acc := by unfold step; simp [hpc, setTh]
+    refine hinv_update hv t _ _ _ _ hoth ?_ (fun _ => VC.le_refl _) ?_
+    · intro u hu hw; rw [working_not_two hi t u hu hcs] at hw; exact absurd hw (by simp)
+    · intro hall; have := hall t; simp [hnew, Pc.inCS] at this
+  | ins r b acc =>
+    simp only
+    have hcs : (h.core.th t).pc.inCS = true := by simp [hpc, Pc.inCS]
+    have hnew : ((step s t h.core).th t).pc.inCS = true := by
+      have hme : ((step s t h.core).th t).pc.ticket = some (b, r.len) ∨ True := Or.inr trivial
+      unfold step; simp only [hpc]
+      cases s h.core.P <;> simp only <;> repeat' (first | split | simp [setTh, Pc.inCS])
+    refine hinv_update hv t _ _ _ _ hoth ?_ (fun _ => VC.le_refl _) ?_
+    · intro u hu hw; rw [working_not_two hi t u hu hcs] at hw; exact absurd hw (by simp)
+    · intro hall; have := hall t; simp [hnew] at this
+  | setC r b =>
+    simp only
+    have hme : (h.core.th t).pc.ticket = some (b, r.len) := by simp [hpc, Pc.ticket]
+    have hcs : (h.core.th t).pc.inCS = true := by simp [hpc, Pc.inCS]
+    have hw0 : (h.core.th t).pc.working = true := by simp [hpc, Pc.working]
+    have htk := hi.tk t b r.len hme
+    have hbY := hi.csY t b r.len hcs hme
+    have hK := hv.inside t hw0
+    refine hinv_update hv t _ _ _ _ hoth (fun _ _ _ => rfl) (fun _ => VC.le_trans hK (VC.le_tick _ _)) ?_
+    intro hall
+    -- t left the critical section without publishing: the protocol is dead
+    refine Or.inr ⟨?_, ?_⟩
+    · have hY : (step s t h.core).Y = h.core.Y := step_Y_other s t h.core (by simp [hpc])
+      rw [hY]; exact Nat.lt_of_lt_of_le (by omega) (step_R_mono s t h.core)
+    · intro u b' n' hb'
+      have hY : (step s t h.core).Y = h.core.Y := step_Y_other s t h.core (by simp [hpc])
+      rw [hY]
+      by_cases hu : u = t
+      · subst hu
+        by_cases hs : r.isSingle = true
+        · have hnt : ((step s u h.core).th u).pc.ticket = none := by
+            unfold step; simp only [hpc, hs, ↓reduceIte, setTh_th_same]
+            rcases ret_pc (h.core.th u) r .fin with h1 | h1 <;> simp [h1, Pc.ticket]
+          rw [hnt] at hb'; exact absurd hb' (by simp)
+        · have hin : ((step s u h.core).th u).pc.inCS = true := by
+            unfold step; simp [hpc, hs, setTh, Pc.inCS]
+          have := hall u; rw [hin] at this; exact absurd this (by simp)
+      · rw [hoth u hu] at hb'
+        have h1 := hi.disj t u b r.len b' n' (Ne.symm hu) hme hb'
+        have h2 := hi.tk u b' n' hb'
+        omega
+  | pub r b acc =>
+    simp only [hrel, ↓reduceIte]
+    have hme : (h.core.th t).pc.ticket = some (b, r.len) := by simp [hpc, Pc.ticket]
+    have hw0 : (h.core.th t).pc.working = true := by simp [hpc, Pc.working]
+    have hK := hv.inside t hw0
+    have hnw : ((step s t h.core).th t).pc.working = false := by
+      unfold step; simp only [hpc]
+      cases acc with
+      | nil => simp only [setTh_th_same]; rcases ret_pc (h.core.th t) r .fin with h1 | h1 <;> simp [h1, Pc.working]
+      | cons v rest =>
+        simp only; split
+        · simp only [setTh_th_same]; rcases ret_pc (h.core.th t) r (.item b v) with h1 | h1 <;> simp [h1, Pc.working]
+        · simp only [setTh_th_same]; rcases ret_pc (h.core.th t) r (.chunk b (v :: rest)) with h1 | h1 <;> simp [h1, Pc.working]
+    refine hinv_update hv t _ _ _ _ hoth (fun _ _ _ => rfl) (fun hw => by rw [hnw] at hw; exact absurd hw (by simp)) ?_
+    intro _
+    refine Or.inl ?_
+    -- last ≤ clk t ≤ tick ≤ k' ≤ k' ⊔ relY
+    refine VC.le_trans hK (VC.le_trans (VC.le_tick _ t) ?_)
+    split
+    · exact VC.le_trans (VC.le_join_left _ h.relY) (VC.le_join_left _ _)
+    · exact VC.le_join_left _ _
+
+end Orx.IW
+
+namespace Orx.IW
+
+def hinit (ps : Nat → List Req) : HCfg := { core := init ps }
+
+theorem hinv_init (ps : Nat → List Req) : HInv (hinit ps) := by
+  constructor
+  · intro t _; exact fun _ => Nat.le_refl _
+  · intro _; exact Or.inl (fun _ => Nat.le_refl _)
+
+theorem hinv_run (o : Ords) (hacq : o.yLoad.isAcq = true) (hrel : o.yFaa.isRel = true)
+    {s : Script} (hf : Fused s) (σ : List Nat) {h : HCfg} (hi : Inv s h.core) (hv : HInv h)
+    (hW : (run s σ h.core).R < W) : HInv (hrun o s σ h) ∧ Inv s (hrun o s σ h).core := by
+  induction σ generalizing h with
+  | nil => exact ⟨hv, hi⟩
+  | cons t ts ih =>
+    simp only [hrun, run] at hW ⊢
+    have h1 : (step s t h.core).R < W := Nat.lt_of_le_of_lt (run_R_mono s ts _) hW
+    have h0 : h.core.R < W := Nat.lt_of_le_of_lt (step_R_mono s t h.core) h1
+    have hv' := hstep_inv o hacq hrel hf hi h0 hv t
+    have hi' : Inv s (hstep o s t h).core := by rw [hstep_core]; exact step_inv hf hi h0 t
+    exact ih hi' hv' (by rw [hstep_core]; exact hW)
+
+/-- **No data race on the wrapped iterator.** With an acquiring load and a releasing `fetch_add` on `yielded`:
+in every reachable configuration (all fused scripts incl. panicking ones, all programs with skips, all
+schedules), whenever a thread is about to enter or to leave the wrapped iterator's `next()`, the previous use of
+the iterator — by whichever thread — happens-before it (its vector clock is below the thread's clock). -/
+theorem no_race (o : Ords) (hacq : o.yLoad.isAcq = true) (hrel : o.yFaa.isRel = true)
+    (s : Script) (hf : Fused s) (ps : Nat → List Req) (hok : ∀ t, ∀ r ∈ ps t, ReqOk r) (σ : List Nat)
+    (hW : (run s σ (init ps)).R < W) (t : Nat)
+    (huse : ∃ r b acc, ((hrun o s σ (hinit ps)).core.th t).pc = .cs r b acc ∨ ((hrun o s σ (hinit ps)).core.th t).pc = .ins r b acc) :
+    (hrun o s σ (hinit ps)).last.le ((hrun o s σ (hinit ps)).clk t) := by
+  have h := (hinv_run o hacq hrel hf σ (h := hinit ps) (inv_init s ps hok) (hinv_init ps) hW).1
+  apply h.inside t
+  obtain ⟨r, b, acc, hpc | hpc⟩ := huse <;> simp [hpc, Pc.working]
+
+end Orx.IW
